@@ -76,6 +76,8 @@ def do_call(ex, st, e):
         return builtin_call(ex, st, o, args, kwargs, e)
     if isinstance(o, types.FunctionType):
         fq = frontend.fq_of(o)
+        if fq is None and hasattr(o, "__pyvc_inline__"):
+            return inline_sidecar(ex, st, o, args, kwargs, e)
         if fq is None:
             raise Unsupported("call of function outside the tree: %r" % (o,), e)
         return function_call(ex, st, fq, args, kwargs, e)
@@ -369,6 +371,52 @@ def inline_call(ex, st, fq, args, kwargs, e):
     fr.loop_ordinals = fsrc.loops
     fr.invariants = ex.reg.transparent_invariants.get(fq, {})
     fr.old_state = None
+    inner = st.fork()
+    inner.env = dict(env)
+    inner.defd = {k: z3.BoolVal(True) for k in env}
+    ctx.frames.append(fr)
+    ctx.inline_depth += 1
+    try:
+        ex.run_block(inner, body)
+    finally:
+        ctx.inline_depth -= 1
+        ctx.frames.pop()
+    outs = []
+    if not inner.dead:
+        fr.returns.append((inner, NONE))
+    for (rs, rv) in fr.returns:
+        rs.env = dict(st.env)
+        rs.defd = dict(st.defd)
+        rs.env["__ret"] = rv
+        rs.defd["__ret"] = z3.BoolVal(True)
+        outs.append(rs)
+    if not outs:
+        st.dead = True
+        return NONE
+    merge_states(ctx, outs, st)
+    rv = st.env.pop("__ret")
+    st.defd.pop("__ret", None)
+    return rv
+
+
+def inline_sidecar(ex, st, fn, args, kwargs, e):
+    from .stmts import assigned_names
+
+    ctx = ex.ctx
+    node, mod = fn.__pyvc_inline__
+    if ctx.inline_depth > 12:
+        raise Unsupported("inlining too deep at %s" % fn.__name__, e)
+    a = node.args
+    names = [x.arg for x in a.args]
+    defaults = [None] * (len(names) - len(a.defaults)) + list(a.defaults)
+    env = bind_params(ex, st, list(zip(names, defaults)), None, args, kwargs, e, fn.__name__)
+    fr = Frame("inline:" + fn.__name__, None)
+    body = frontend.strip_docstring(node)
+    fr.locals_assigned = assigned_names(body) | set(env)
+    fr.sidecar_globals = mod.__dict__
+    fr.loop_ordinals = {}
+    fr.invariants = {}
+    fr.old_state = ctx.frames[-1].old_state
     inner = st.fork()
     inner.env = dict(env)
     inner.defd = {k: z3.BoolVal(True) for k in env}
